@@ -564,8 +564,9 @@ PROPS["C18"] = {
     "reach": ["C18-scalar", "C18-vector", "C18-matrix", "C18-malformed", "C18-hmmconfig", "C18-distconfig"],
     "selftest_vars": ["x", "x.d", "x.h", "a", "a.d", "v", "v.d", "d", "h"],
     "bounds": {"quick": "JSON pairs of Float64/Float32/Int/ConstFloat64/Real64 scalars (jets N=2, order<=2), dense/sparse Float64/Real64 vectors (length 3, zero patterns) and matrices (Slice/T views of a 3x3 parent, "
-                        "all slice bounds); malformed documents: dense-matrix documents with every Rows,Cols in 0..2 and 0..6 values, sparse-vector documents with <=2 indices in -1..2 and <=2 values, Real64 documents with mismatching derivative/Hessian sizes, wrong kinds",
-               "thorough": "also Float32/Real32 containers and depth-3 views"},
+                        "all slice bounds); malformed documents: dense-matrix documents with every Rows,Cols in 0..2 and 0..6 values, sparse-vector documents with <=2 indices in -1..2 and <=2 values, Real64 documents with mismatching derivative/Hessian sizes, wrong kinds; "
+                        "configurations: ExportConfig -> JSON -> ImportConfig of generic.Hmm (m<=2, start / final state sets) and of 8 scalar families with symbolic parameters (real interpretation)",
+               "thorough": "also Float32/Real32 containers and depth-3 views; Hmm configurations with m=3"},
     "outside": "number formatting and parsing (the contract 'float64 round-trips exactly' of encoding/json is assumed), Export/Import table files, gzip, arbitrary byte strings as reader input; configurations: generic.Hmm and 8 scalar families only (nested emission distributions, mixtures and the registry lookup by name are not encoded)",
     "assumptions": ["encoding/json is replaced by a data-model stub: Marshal maps Go values to trees of number/string/bool/null/array/object-by-exported-field-name with the number leaves carried through unchanged, Unmarshal assigns by field name and reports kind mismatches; decoding into interface{} yields map[string]interface{} / []interface{} / float64 / string / bool as documented",
                     "package reflect (Kind, Float, Bool, String, Len, Index, Elem, Interface, MapIndex, IsValid) is a data-model stub over the executor's values",
@@ -619,9 +620,9 @@ PROPS["C12"] = {
     "reach": ["C12-vec", "C12-mat", "C12-scalar", "C12-iter", "C12-operands", "C12-ctor", "C12-alg"],
     "selftest_vars": ["a", "a.d", "a.h", "v", "v.d", "w", "w.d", "w.h", "u", "u.d", "u.h", "b", "b.d", "f", "g"],
     "bounds": {"quick": "Clone*/As* of dense and sparse Float64/Real64 vectors (length 3) and matrices (Slice/T views of a 3x3 parent, all slice bounds), Real64/Float64 scalars (jets N=2, order 2), iterator clones; "
-                        "symbolic element values, every position of clone / source mutated with symbolic values; read-only operands of 6 operation groups; index/value constructors",
-               "thorough": "also Float32/Real32 and depth-3 views"},
-    "outside": "algorithm entry points' inputs are checked by the harnesses of C04-C07 (not yet all built); distributions' constructors",
+                        "symbolic element values, every position of clone / source mutated with symbolic values; read-only operands of 6 operation groups; index/value constructors; 22 algorithm entry-point configurations (qrAlgorithm incl. Symmetric and caller-supplied work space, eigensystem, svd, Hessenberg / bidiagonal / tridiagonal reductions, Gram-Schmidt, Cholesky, inverse, determinant, back substitution, msqrt, msqrtInv) on symbolic 2x2 matrices with the input under a write watch",
+               "thorough": "also Float32/Real32 and depth-3 views; algorithm entry points also on 3x3 and Real64"},
+    "outside": "optimiser entry points (start vectors of rprop / bfgs / newton / gradientDescent / saga); distributions' constructors; for the iterative entry points the input is watched along the explored paths only (breadth-first, path and time caps stated in the evidence): a write that happens only after many iterations is not seen",
     "assumptions": ["map iteration order modelled as ascending key order"],
 }
 
@@ -657,7 +658,7 @@ PROPS["C20"] = {
     "bounds": {"quick": "loud failure: 11 vector and 10 matrix operation groups with every combination of receiver/operand dimensions in 0..2 (vectors) / 1..2 (matrices), dense and sparse Float64/Real64; element access with a symbolic index "
                         "on vectors (length 3) and on Slice/T views of a 3x3 parent (all slice bounds); SetVariable orders -1..4; dyadic operations on different N; structural loops (Tip, ReverseOrder, Sort, iteration) on shapes up to 3x2",
                "thorough": "also Float32/Real32 containers"},
-    "outside": "termination of the floating-point convergence loops (QR algorithm, SVD, msqrt, line search, optimisers): not decided here; invalid option values of the algorithm packages",
+    "outside": "termination of the floating-point convergence loops (QR algorithm, SVD, msqrt, line search, optimisers) is not decided; what is: their rotation kernel givensRotation.Run performs no 0/0 division and no square root of a negative number for any input (real interpretation), so it cannot feed a NaN into the NaN-blind exit tests; NaN through overflow; invalid option values of the algorithm packages",
     "assumptions": ["a loop that does not terminate within the executor's step bound shows up as an undecided path (reported, never counted as held)"],
 }
 
@@ -755,9 +756,10 @@ PROPS["C05"] = {
     "job_budget_ms": {"quick": 150000, "thorough": 1500000},
     "selftest_vars": [],
     "bounds": {"quick": "Cholesky and LDL on fully symbolic symmetric 2x2 and 3x3 Float64/Real64 matrices (with and without caller-supplied buffers holding other values), forced-PD LDL structure/positivity on symbolic 2x2 and "
-                        "reconstruction on three concrete graded safely-PD matrices, Gram-Schmidt on symbolic 2x2, Givens rotation on a symbolic pair; real interpretation (sqrt as constrained fresh variables)",
-               "thorough": "Gram-Schmidt 3x3"},
-    "outside": "the iterative factorisations (Householder reductions, Hessenberg reduction, QR algorithm, eigensystem, SVD, matrix square roots): their convergence-dependent post-conditions are not encoded; conditioning/rounding",
+                        "reconstruction on three concrete graded safely-PD matrices, Gram-Schmidt on symbolic 2x2, Givens rotation on a symbolic pair; one implicit symmetric QR step (unexported symmetricQRstep, in-package harness) on symbolic tridiagonal 2x2 and 3x3 states with the active block at the top, "
+                        "at the bottom (p = 1) or whole; real interpretation (sqrt as constrained fresh variables)",
+               "thorough": "Gram-Schmidt 3x3; QR step on 4x4 states and with an arbitrary accumulated Z"},
+    "outside": "the iterative factorisations as whole runs (Householder reductions, Hessenberg reduction, Francis QR, eigensystem, SVD, matrix square roots): convergence-dependent post-conditions are not encoded; of the symmetric QR algorithm one implicit step from an arbitrary tridiagonal state is (similarity and orthogonality preserved, rows outside the active block untouched); conditioning/rounding",
     "assumptions": ["floats read as reals; denominators and radicands assumed in the domain", "counterexamples replayed natively with relative tolerance 1e-6"],
 }
 
@@ -814,14 +816,16 @@ def c01_jobs(tier):
         for op in range(C01_NOPS):
             for cfg in cfgs:
                 jobs.append({"func": f"verif_C01_scalar_{rt}", "args": [op, cfg], "mode": "real", "tag": f"{rt} op={op} cfg={cfg}"})
+    for op in range(3):
+        jobs.append({"func": "verif_C01_range", "args": [op], "mode": "fp", "intmode": "int", "precise_feas": True, "obl_cap_ms": 90000, "tag": f"derivative-range op={op}"})
     return jobs
 
 
 PROPS["C01"] = {
-    "overlay": [RT, SCALAR_COMMON, _scalar_real("Real64"), _scalar_real("Real32"), _c01("Real64"), _c01("Real32")],
+    "overlay": [RT, SCALAR_COMMON, _scalar_real("Real64"), _scalar_real("Real32"), _c01("Real64"), _c01("Real32"), ("root/zz_verif_c01_range.go", "zz_verif_c01_range.go")],
     "mode": "real", "intmode": "int",
     "jobs": c01_jobs,
-    "reach": ["scalar-spec"],
+    "reach": ["scalar-spec", "derivative-range"],
     "replay_tol": 1e-6,
     "job_budget_ms": {"quick": 120000, "thorough": 900000},
     "selftest_vars": [],
@@ -849,6 +853,11 @@ def c02_jobs(tier):
         jobs.append({"func": "verif_C02_int", "args": [ty], "mode": "fp", "intmode": "bv"})
     for fr in range(3):
         jobs.append({"func": "verif_C02_convert", "args": [fr], "mode": "fp", "intmode": "bv"})
+    # range consequences (bit-precise, overflow / underflow of exp through its documented range steps)
+    for ty in ((0, 2) if tier == "quick" else (0, 1, 2, 3)):
+        for op in range(5):
+            jobs.append({"func": "verif_C02_range", "args": [ty, op], "mode": "fp", "intmode": "int", "precise_feas": True,
+                         "obl_cap_ms": 60000, "tag": f"range ty={ty} op={op}"})
     return jobs
 
 
@@ -856,7 +865,7 @@ PROPS["C02"] = {
     "overlay": [RT, SCALAR_COMMON, _scalar_real("Real64"), _scalar_real("Real32"), _c01("Real64"), _c01("Real32"), ("root/zz_verif_c02_mixed.go", "zz_verif_c02_mixed.go")],
     "mode": "real", "intmode": "int",
     "jobs": c02_jobs,
-    "reach": ["scalar-spec", "mixed", "int", "convert"],
+    "reach": ["scalar-spec", "mixed", "int", "convert", "range"],
     "replay_tol": 1e-6,
     "job_budget_ms": {"quick": 120000, "thorough": 900000},
     "selftest_vars": [],
@@ -937,7 +946,8 @@ PROPS["C15"] = {
     "job_budget_ms": {"quick": 120000, "thorough": 900000},
     "selftest_vars": [],
     "bounds": {"quick": "generic.Hmm with m<=2 states and sequences of length n<=3: symbolic log initial / transition / emission values, zero-probability transitions as -Inf patterns, shared emission maps, final-state restriction; "
-                        "LogPdf = log of the sum over all m^n hidden paths, posterior marginal x likelihood = mass of the paths through the state, marginals sum to one, the Viterbi path has maximal joint probability; real interpretation, exp-homomorphism, LogAdd summarised",
+                        "LogPdf = log of the sum over all m^n hidden paths, posterior marginal x likelihood = mass of the paths through the state, marginals sum to one, the Viterbi path has maximal joint probability; the float64 forward-backward tables of Baum-Welch (hmm_optimized, in-package harness) equal the generic ones for sequences of length 1..3 in buffers "
+                        "that hold arbitrary stale values of a longer record; real interpretation, exp-homomorphism, LogAdd summarised",
                "thorough": "m<=3, n<=4"},
     "outside": "Posterior of state-set sequences, Baum-Welch beyond its forward-backward tables, mixtures, hierarchical / constrained HMMs, data sets of several sequences, larger models",
     "assumptions": ["LogAdd(a,b) is replaced by its summary log(exp a + exp b) (the C02 check discharges that summary against the method bodies)",
@@ -957,15 +967,20 @@ def c16_jobs(tier):
         for n in (2, 3):
             if family < 2:
                 J("verif_C16_bounds", [family, n])
+    # mixture EM: one E-step + weight M-step (in-package harness), sequential pool here (C17 runs it with k threads)
+    GEN = ROOT + "/statistics/generic"
+    for (m, n, cmode) in ([(2, 2, 0), (2, 2, 1), (2, 3, 1), (2, 1, 2)] if tier == "quick" else [(2, 2, 0), (2, 2, 1), (2, 3, 1), (2, 1, 2), (3, 2, 1), (2, 4, 1), (3, 3, 0)]):
+        jobs.append({"pkg": GEN, "func": "verif_C16_emstep", "args": [m, n, 1, cmode], "mode": "real", "intmode": "int", "summarise_logadd": True,
+                     "tag": f"emstep m={m} n={n} k=1 counts={cmode}"})
     return jobs
 
 
 PROPS["C16"] = {
-    "overlay": [RT, ("zzverif/c04.go", "zzverif/c04.go"), ("zzverif/c16.go", "zzverif/c16.go")],
-    "patterns": ["./zzverif"],
+    "overlay": [RT, ("zzverif/c04.go", "zzverif/c04.go"), ("zzverif/c16.go", "zzverif/c16.go"), ("pkg/generic_em.go", "statistics/generic/zz_verif_em.go")],
+    "patterns": ["./zzverif", "./statistics/generic"],
     "mode": "real", "intmode": "int",
     "jobs": c16_jobs,
-    "reach": ["score", "bounds"],
+    "reach": ["score", "bounds", "C16-emstep"],
     "replay_tol": 1e-6,
     "job_budget_ms": {"quick": 120000, "thorough": 900000},
     "selftest_vars": [],
@@ -986,12 +1001,17 @@ def c17_jobs(tier):
         for (n, k) in ([(2, 2), (3, 2), (3, 3), (2, 3)] if tier == "quick" else [(2, 2), (3, 2), (3, 3), (2, 3), (4, 2), (4, 3), (1, 2)]):
             for weighted in (0, 1):
                 J("verif_C17_pool", [family, n, k, weighted])
+    # mixture EM step with k threads, every assignment of observations to threads
+    GEN = ROOT + "/statistics/generic"
+    for (m, n, k, cmode) in ([(2, 2, 2, 1), (2, 3, 2, 0), (2, 2, 3, 1)] if tier == "quick" else [(2, 2, 2, 1), (2, 3, 2, 0), (2, 2, 3, 1), (2, 3, 3, 1), (2, 4, 2, 1), (3, 2, 2, 0)]):
+        jobs.append({"pkg": GEN, "func": "verif_C16_emstep", "args": [m, n, k, cmode], "mode": "real", "intmode": "int", "summarise_logadd": True,
+                     "tag": f"emstep m={m} n={n} k={k} counts={cmode}"})
     return jobs
 
 
 PROPS["C17"] = {
-    "overlay": [RT, ("zzverif/c04.go", "zzverif/c04.go"), ("zzverif/c16.go", "zzverif/c16.go")],
-    "patterns": ["./zzverif"],
+    "overlay": [RT, ("zzverif/c04.go", "zzverif/c04.go"), ("zzverif/c16.go", "zzverif/c16.go"), ("pkg/generic_em.go", "statistics/generic/zz_verif_em.go")],
+    "patterns": ["./zzverif", "./statistics/generic"],
     "mode": "real", "intmode": "int",
     "jobs": c17_jobs,
     "reach": ["pool"],
